@@ -68,6 +68,20 @@ func (st *poolStats) violation(format string, a ...any) {
 	}
 }
 
+// givenUp: once several scenarios have failed (a pool that has lost its workers fails every one of them after its full
+// patience) the remaining ones are skipped: the verdict is settled and need not cost half an hour.
+func (st *poolStats) givenUp() bool {
+	st.mu.Lock()
+	defer st.mu.Unlock()
+	n := len(st.failures)
+	for _, v := range st.viol {
+		if !strings.Contains(v, "KNOWN[") {
+			n++
+		}
+	}
+	return n >= 3
+}
+
 func (st *poolStats) count(table, bucket string) {
 	st.mu.Lock()
 	defer st.mu.Unlock()
@@ -108,6 +122,9 @@ func poolFrames(fragment string) int {
 
 // ---- scenario A: blocking mode (optionally with a WorkerLimit that must be ignored)
 func poolBlocking(r *rand.Rand, limit int, st *poolStats) {
+	if st.givenUp() {
+		return
+	}
 	name := "blocking"
 	opts := []quartz.SchedulerOpt{quartz.WithBlockingExecution(), quartz.WithOutdatedThreshold(time.Hour)}
 	if limit > 0 {
@@ -193,6 +210,9 @@ var poolPanicFirst bool
 // restartFirst: the scheduler is started, stopped and waited for (drained) before the run that is measured, on the same live
 // parent context: the pool of a stopped run must be gone, so the bound n holds for the scheduler object as well.
 func poolLimitedOpt(r *rand.Rand, n int, restartFirst bool, st *poolStats) {
+	if st.givenUp() {
+		return
+	}
 	name := fmt.Sprintf("pool-%d", n)
 	if restartFirst {
 		name = fmt.Sprintf("pool-%d-after-restart", n)
@@ -271,6 +291,8 @@ wait:
 	}
 	if got < jobs && poolPanicFirst {
 		st.violation("%s: after %d jobs that panicked, only %d of %d jobs ran within 30 s with WorkerLimit %d: a panicking job cost the pool its workers (jobs are not independent)", name, n, got, jobs, n)
+	} else if got < jobs && restartFirst {
+		st.violation("%s: after Start; Stop; Wait (the first run has drained); Start only %d of %d jobs ran within 30 s with WorkerLimit %d (max in flight %d): the restarted scheduler does not have its %d workers", name, got, jobs, n, max, n)
 	} else if got < jobs {
 		st.failures = append(st.failures, fmt.Sprintf("%s: only %d of %d jobs ran within 30 s", name, got, jobs))
 	}
@@ -289,6 +311,9 @@ wait:
 
 // ---- scenario C: unbounded mode, one execution never returns; the others and its own next fire times go on
 func poolUnbounded(r *rand.Rand, st *poolStats) {
+	if st.givenUp() {
+		return
+	}
 	name := "unbounded"
 	s, err := quartz.NewStdScheduler(quartz.WithOutdatedThreshold(time.Hour))
 	must(err)
@@ -400,6 +425,9 @@ wait:
 // not per scheduler object. A job that ignores cancellation is still running when Stop(); Start() creates a fresh
 // loop (and pool) that dispatches the other due jobs beside it.
 func poolRestartOverlap(r *rand.Rand, limit int, st *poolStats) {
+	if st.givenUp() {
+		return
+	}
 	name, bound := "restart-overlap:blocking", 1
 	opts := []quartz.SchedulerOpt{quartz.WithOutdatedThreshold(time.Hour)}
 	if limit > 0 {
@@ -498,6 +526,9 @@ func poolStaleWorker(trials int, st *poolStats) {
 	name := "stale-worker"
 	staleCtx, fewAttempts, ok := 0, 0, 0
 	for t := 0; t < trials; t++ {
+		if st.givenUp() {
+			break
+		}
 		s, err := quartz.NewStdScheduler(quartz.WithWorkerLimit(1), quartz.WithOutdatedThreshold(time.Hour))
 		must(err)
 		mkGate := func(nm string) (*poolJob, chan struct{}, chan struct{}) {
@@ -514,7 +545,13 @@ func poolStaleWorker(trials int, st *poolStats) {
 			case <-ch:
 				return true
 			case <-time.After(10 * time.Second):
-				st.failures = append(st.failures, fmt.Sprintf("%s: %s not reached within 10 s (trial %d)", name, what, t))
+				if what == "gate of the second run" {
+					// the worker of the first run is still busy (its job ignores cancellation); the run started by Stop; Start has
+					// WorkerLimit 1 of its own and a job that has been due for 10 s
+					st.violation("stale worker: after Stop; Start with the worker of the previous run still busy, a due job of the new run did not start within 10 s: the new run has no worker of its own (WorkerLimit 1, trial %d)", t)
+				} else {
+					st.failures = append(st.failures, fmt.Sprintf("%s: %s not reached within 10 s (trial %d)", name, what, t))
+				}
 				return false
 			}
 		}
@@ -602,6 +639,9 @@ func poolStaleWorker(trials int, st *poolStats) {
 // retry attempts overlap the other jobs. The maximum number of Execute bodies in progress must stay within the bound, and every
 // job finishes (failers after 2 attempts).
 func poolRetriesCounted(r *rand.Rand, n int, st *poolStats) {
+	if st.givenUp() {
+		return
+	}
 	name, bound := "blocking-with-retries", 1
 	opts := []quartz.SchedulerOpt{quartz.WithOutdatedThreshold(time.Hour)}
 	if n == 0 {
@@ -723,7 +763,15 @@ func poolRun(args []string) int {
 		st.evals, *rounds*10+3, len(st.shapes), len(viol), len(st.failures), time.Since(t0).Milliseconds())
 	if len(st.failures) > 0 {
 		fmt.Println("pool: harness failures:", st.failures)
-		return 4
+		real := 0
+		for _, v := range viol {
+			if !strings.Contains(v, "KNOWN[") {
+				real++
+			}
+		}
+		if real == 0 { // (with a judged violation at hand that one is reported; the ambiguous failures are in stats.json)
+			return 4
+		}
 	}
 	return 0
 }
